@@ -78,26 +78,27 @@ def grep_gate():
 
 # which theorem files (and which theorems in them) are the proof obligations of each property
 PROPS = {
-    "C01": [("Rank.v", r"^C01_")],
-    "C02": [("Sketch.v", r"^C02_"), ("LayerA.v", r"^A3_")],
+    "C01": [("Rank.v", r"^C01_"), ("Instance.v", r"^I_C01_|^I_a_quantile|^I_a_rank"), ("Refine.v", r"Rf_plain_quantile|Rf_executable_quantile|Rf_plain_add"), ("Rounding.v", r"R_rnd64_rndQ|R_rndQ_mono|R_rndQ_int|R_q2f_correct")],
+    "C02": [("Sketch.v", r"^C02_"), ("LayerA.v", r"^A3_"), ("Refine.v", r"Rf_st_merge|Rf_sk_merge|Rf_sketch_history")],
     "C03": [("C03.v", r".")],
-    "C04": [("C04dense.v", r"."), ("C04pag.v", r"."), ("C04sparse.v", r"."), ("LayerA.v", r"^A[1-7]_")],
+    "C04": [("C04dense.v", r"."), ("C04pag.v", r"."), ("C04pagloops.v", r"."), ("C04sparse.v", r"."), ("LayerA.v", r"^A[1-7]_"), ("Refine.v", r"^Rf_st_|^Rf_StInv")],
     "C05": [("C05.v", r"."), ("LayerA.v", r"^A8_")],
-    "C06": [("Wire.v", r"^C06_")],
-    "C07": [("Wire.v", r"^C07_")],
-    "C08": [("Wire.v", r"^C08_"), ("C18.v", r"prefix_eof|reads_at_most_9")],
+    "C06": [("Wire.v", r"^C06_"), ("WireRaw.v", r"concat")],
+    "C07": [("Wire.v", r"^C07_"), ("WireRaw.v", r".")],
+    "C08": [("Wire.v", r"^C08_"), ("C18.v", r"prefix_eof|reads_at_most_9"), ("C19.v", r"truncated|short_input|unknown_mapping")],
     "C09": [("Proto.v", r".")],
     "C10": [("C10.v", r".")],
-    "C11": [("Rank.v", r"^C11_")],
-    "C12": [("Sketch.v", r"^C12_")],
-    "C13": [("Sketch.v", r"^C13_")],
-    "C14": [("C04pag.v", r"reads_pure|foreach|compact|key_at_rank"), ("C04dense.v", r"foreach|key_at_rank|total|min_index|max_index"), ("C20.v", r"queries_transparent|inv_lower|inv_upper")],
-    "C15": [("C04dense.v", r"inv_clear|clear_like_new"), ("C04pag.v", r"clear"), ("Sketch.v", r"^C15_"), ("C05.v", r"clear"), ("C04sparse.v", r"clear")],
-    "C16": [("Sketch.v", r"^C16_"), ("C04dense.v", r"reweight"), ("C04pag.v", r"reweight"), ("LayerA.v", r"^A5_|bscale")],
+    "C11": [("Rank.v", r"^C11_"), ("Instance.v", r"^I_C11_")],
+    "C12": [("Sketch.v", r"^C12_"), ("Instance.v", r"^I_C12_"), ("Refine.v", r"Rf_plain_count|Rf_plain_is_empty|Rf_plain_max|Rf_plain_min|Rf_sk_foreach")],
+    "C13": [("Sketch.v", r"^C13_"), ("Refine.v", r"too_high|too_low|no_panic|Rf_sk_add")],
+    "C14": [("C04pag.v", r"reads_pure|foreach|compact|key_at_rank"), ("C04pagloops.v", r"."), ("C04dense.v", r"foreach|key_at_rank|total|min_index|max_index"),
+            ("C20.v", r"queries_transparent|inv_lower|inv_upper"), ("Refine.v", r"reads_pure|quantile_pure|copy")],
+    "C15": [("C04dense.v", r"inv_clear|clear_like_new"), ("C04pag.v", r"clear"), ("Sketch.v", r"^C15_"), ("C05.v", r"clear"), ("C04sparse.v", r"clear"), ("Refine.v", r"clear")],
+    "C16": [("Sketch.v", r"^C16_"), ("C04dense.v", r"reweight"), ("C04pag.v", r"reweight"), ("LayerA.v", r"^A5_|bscale"), ("C05.v", r"reweight"), ("Refine.v", r"reweight")],
     "C17": [("ChangeMapping.v", r".")],
     "C18": [("C18.v", r".")],
     "C19": [("C19real.v", r"."), ("C19.v", r".")],
-    "C20": [("C20.v", r".")],
+    "C20": [("C20.v", r"."), ("Instance.v", r"^I_C20_")],
 }
 
 def closure_key(rel):
@@ -110,8 +111,9 @@ def closure_key(rel):
         path = os.path.join(COQ, r)
         if not os.path.exists(path): continue
         txt = open(path).read(); h.update(r.encode()); h.update(txt.encode())
-        for m in re.finditer(r"From\s+SK\s+Require\s+(?:Import\s+|Export\s+)?([^.]*(?:\.[A-Za-z_][\w]*)*)\s*\.", txt):
+        for m in re.finditer(r"(?:From\s+SK\s+)?Require\s+(?:Import\s+|Export\s+)?((?:[\w.]+\s+)*[\w.]+)\s*\.(?=\s|$)", txt):
             for mod in m.group(1).split():
+                mod = mod[3:] if mod.startswith("SK.") else mod
                 todo.append(mod.replace(".", "/") + ".v")
     return h.hexdigest()
 
@@ -178,17 +180,19 @@ def nextafter(x, up):
     return struct.unpack("<d", struct.pack("<q", b))[0]
 
 # ---------------------------------------------------------------- running
+RUN_TIMEOUT = [900]
+
 def run_scripts(name, lines):
     """Write the script, run vrun then vmodel; returns (impl result lines, impl side lines per result, model lines)."""
     os.makedirs(os.path.join(WORK, name.split("/")[0]), exist_ok=True)
     sp = os.path.join(WORK, name + ".script"); tp = os.path.join(WORK, name + ".tr"); mp = os.path.join(WORK, name + ".mo")
     with open(sp, "w") as f: f.write("\n".join(lines) + "\n")
     with open(tp, "w") as f:
-        p = subprocess.run("ulimit -v 12000000; exec %s %s" % (VRUN, sp), shell=True, stdout=f, stderr=subprocess.PIPE, text=True, timeout=3600)
+        p = subprocess.run("ulimit -v 12000000; exec %s %s" % (VRUN, sp), shell=True, stdout=f, stderr=subprocess.PIPE, text=True, timeout=RUN_TIMEOUT[0])
     if p.returncode != 0:
         raise RuntimeError("vrun failed: " + p.stderr[-2000:])
     with open(mp, "w") as f:
-        p = subprocess.run("ulimit -s unlimited 2>/dev/null; ulimit -v 12000000; exec %s %s %s" % (VMODEL, sp, tp), shell=True, stdout=f, stderr=subprocess.PIPE, text=True, timeout=3600)
+        p = subprocess.run("ulimit -s unlimited 2>/dev/null; ulimit -v 12000000; exec %s %s %s" % (VMODEL, sp, tp), shell=True, stdout=f, stderr=subprocess.PIPE, text=True, timeout=2 * RUN_TIMEOUT[0])
     if p.returncode != 0:
         raise RuntimeError("vmodel failed: " + p.stderr[-2000:])
     impl, sides, cur = [], [], []
@@ -241,8 +245,27 @@ def _run_cases1(pid, tag, cases):
     for c in cases:
         script.append("case " + c.name); script.extend(instr_lines(c.lines))
     try:
-        impl, sides, model = run_scripts("%s/%s" % (pid, tag), script)
+        try:
+            impl, sides, model = run_scripts("%s/%s" % (pid, tag), script)
+        except subprocess.TimeoutExpired as te:
+            raise RuntimeError(("vrun failed: timeout" if VRUN in str(te.cmd) and VMODEL not in str(te.cmd) else "vmodel failed: timeout"))
     except RuntimeError as e:
+        if "vmodel failed" in str(e):
+            # the model could not follow (resource blow-up on states only a misbehaving implementation reaches): keep the implementation's
+            # answers, isolate the cases one by one, mark the model's lines of the offending cases "unsupported"
+            if len(cases) == 1:
+                sp = os.path.join(WORK, "%s/%s" % (pid, tag) + ".tr"); impl, sides, cur = [], [], []
+                for l in open(sp):
+                    l = l.rstrip("\n")
+                    if l.startswith("#"): cur.append(l)
+                    else: impl.append(l); sides.append(cur); cur = []
+                n = len(instr_lines(cases[0].lines))
+                return [(cases[0], impl[1:n + 1], sides[1:n + 1], ["unsupported"] * n)]
+            old = RUN_TIMEOUT[0]; RUN_TIMEOUT[0] = 60; out = []
+            try:
+                for i, c in enumerate(cases): out.extend(_run_cases1(pid, "%s-one" % tag, [c]))
+            finally: RUN_TIMEOUT[0] = old
+            return out
         if "vrun failed" not in str(e) or len(cases) == 1:
             if "vrun failed" in str(e) and len(cases) == 1:
                 # the implementation died with a fatal runtime error (e.g. out of memory): every answer of the case is "panic"
